@@ -23,6 +23,7 @@ REQUIRED_COUNTERS = {"origin_checked": {"quick": 5000, "thorough": 50000},
                      "outermost_error_cases": {"quick": 40, "thorough": 400},
                      "outermost_multi_error_cases": {"quick": 4, "thorough": 40},
                      "outermost_exiting_cases": {"quick": 8, "thorough": 80},
+                     "origin_checked_without_contexts": {"quick": 5000, "thorough": 20000},
                      "outermost_option_combinations": {"quick": 200, "thorough": 2000}}
 SHARD_TIMEOUT = {"quick": 400, "thorough": 5400}
 INTERPS = ["3.12", "3.11", "3.10", "3.9"]
@@ -91,7 +92,10 @@ def worker(spec):
                 if j > 40:
                     break
                 res.evaluations += 1
-                s = stackscope.extract(t.x)
+                # origins do not depend on the options of the extraction
+                s = stackscope.extract(t.x) if j % 2 else stackscope.extract(t.x, with_contexts=False)
+                if not j % 2:
+                    res.count("origin_checked_without_contexts")
                 om = chains.owner_map(t.x)
                 for i, fr in enumerate(s.frames):
                     owner = om.get(id(fr.pyframe))
@@ -99,7 +103,7 @@ def worker(spec):
                                           must_have_owner=True):
                         res.nontrivial(interp, repr(cs), j, i)
                 if s.frames:
-                    fo = stackscope.extract_outermost(t.x)
+                    fo = stackscope.extract_outermost(t.x, with_contexts=bool(j % 2))
                     f0 = s.frames[0]
                     res.count("outermost_eq_checked")
                     if not (fo.pyframe is f0.pyframe and fo.lineno == f0.lineno and fo.contexts == f0.contexts
